@@ -91,6 +91,13 @@ def perturbations(d, rng, quick):
             j = rng.randrange(n)
             e[key] = [x * 1.1 + (0.5 if m == j else 0.0) for m, x in enumerate(d[key])]
             out.append(("charge", key, e, "le"))
+        # ... and far up: the instance may become infeasible (the solve fails, which is accepted) but a solve that returns
+        # must not report MORE people fed than the base
+        e = cp()
+        f = rng.choice([3.0, 10.0])
+        e["feed_charge"] = [x * f + 1.0 for x in d["feed_charge"]]
+        e["biofuel_charge"] = [x * f for x in d["biofuel_charge"]]
+        out.append(("charge", f"both x{f}", e, "le"))
     # common scale
     for c in ([rng.choice([0.01, 3.0, 1000.0])] if quick else [0.01, 3.0, 1000.0]):
         if (d["pop"] < 1e7) != (d["pop"] * c < 1e7) and d["ty"] == "to_animals":
@@ -153,9 +160,14 @@ def run(ctx):
             meta.append((w, "base", None, None, c["base"]))
             items.append({"spec": c["perturbed"], "solve": True})
             meta.append((w, c["kind"], c["label"], c["expected"], c["perturbed"]))
+    nrep = 0
     for where, d, rec in bases:
         items.append({"spec": d, "solve": True})
         meta.append((where, "base", None, None, d))
+        if nrep < (12 if ctx.quick else 120):
+            nrep += 1
+            items.append({"spec": d, "solve": True, "repeat": True})
+            meta.append((where, "repeat", "same input objects solved twice", "eq", d))
         for kind, label, e, exp in perturbations(d, rng, ctx.quick):
             items.append({"spec": e, "solve": True})
             meta.append((where, kind, label, exp, e))
@@ -206,6 +218,16 @@ def run(ctx):
                               {"kind": "counterexample", "base": base_spec, "perturbed": spec, "where": where, "label": label})
             continue
         p = r["percent_fed_from_model"]
+        if kind == "repeat":
+            p2 = r.get("second_optimum")
+            ctx.count((json.dumps(spec, sort_keys=True)[:3000], kind, label), nontrivial=base_opt > 0)
+            if p2 is None or abs(p2 - p) > REL * (1 + abs(p)) or r.get("second_lp_in") != r.get("lp_in"):
+                changed = sorted(k for k in (r.get("lp_in") or {}) if (r.get("second_lp_in") or {}).get(k) != r["lp_in"][k])
+                ctx.violation("C12:same-input-solved-twice-differs",
+                              f"solving twice with the same input objects gives {p} then {p2}; the optimiser altered its input "
+                              f"(fields that differ the second time: {changed[:6]}) on {where}",
+                              {"kind": "counterexample", "base": base_spec, "where": where, "first": p, "second": p2, "changed": changed})
+            continue
         ctx.count((json.dumps(spec, sort_keys=True)[:3000], kind, label), nontrivial=base_opt > 0)
         target = base_opt
         exp0 = exp
